@@ -19,7 +19,7 @@ from formatting_shim import to_pascal
 
 THEOREMS = ["Yardl.C07.cpp_writer_iff", "Yardl.C07.py_writer_iff", "Yardl.C07.cpp_reader_iff", "Yardl.C07.py_reader_iff", "Yardl.C07.abandoned_stream_blocks_the_reader",
             "Yardl.C07.spec_close_cpp_writer", "Yardl.C07.spec_out_of_order_write_cpp", "Yardl.C07.spec_close_cpp_reader",
-            "Yardl.C07.spec_close_py_reader"]
+            "Yardl.C07.spec_close_py_reader", "Yardl.C07.matlab_writer_iff", "Yardl.C07.matlab_reader_iff", "Yardl.C07.spec_matlab_reader"]
 
 
 def shapes(rng, quick):
@@ -37,7 +37,7 @@ def write_model(d, shps):
     os.makedirs(d, exist_ok=True)
     open(os.path.join(d, "_package.yml"), "w").write(
         "namespace: St\ncpp:\n  sourcesOutputDir: ../cpp\n  generateCMakeLists: false\n  generateHDF5: false\n  generateNDJson: false\n"
-        "  overrideArrayHeader: vf_ndarray.h\npython:\n  outputDir: ../py\n")
+        "  overrideArrayHeader: vf_ndarray.h\npython:\n  outputDir: ../py\nmatlab:\n  outputDir: ../matlab\n")
     lines = []
     for k, shp in enumerate(shps):
         lines.append(f"P{k}: !protocol\n  sequence:")
@@ -264,6 +264,32 @@ def run(report, tier, seed):
         open(sc.path("pydrv.py"), "w").write(PY_DRIVER)
         py = subprocess.Popen(["python3-vt", sc.path("pydrv.py"), sc.path("py"), json.dumps(shps)], stdin=subprocess.PIPE, stdout=subprocess.PIPE)
         lean = vlib.LeanDriver("wiredrv")
+
+        # MATLAB cannot be run here: the method tables of the generated base classes are read out of the .m files and compared with the tables whose
+        # machines the theorems matlab_writer_iff / matlab_reader_iff are about (every shape of this run, the 130-step ones included)
+        import matlabproto
+        for k, shp in enumerate(shps):
+            want = lean.ask({"op": "matlab_rows", "shape": shp})
+            names = [f"s{i}" for i in range(len(shp))]
+            for side, fn in (("writer", f"P{k}WriterBase.m"), ("reader", f"P{k}ReaderBase.m")):
+                path = os.path.join(sc.path("matlab"), "+st", fn)
+                report.case(distinct_key=("matlab-table", side, tuple(shp)))
+                report.count(f"matlab.{side}-tables")
+                replay = {"shape": shp, "file": fn, "seed": seed}
+                try:
+                    got = matlabproto.rows(open(path).read(), names, side == "writer")
+                except (OSError, ValueError, AttributeError) as e:
+                    report.violation(f"matlab:{side}:table-not-readable", dict(replay, error=str(e), text=(open(path).read()[:3000] if os.path.exists(path) else None)),
+                                     "the generated MATLAB base class does not have the shape the translator (and the model) assume")
+                    continue
+                # (the order of the methods in the file is immaterial: a method is looked up by kind and step)
+                key = lambda r: (r[1] if r[0] != "close" else 10 ** 9, r[0])
+                got, wanted = sorted(got, key=key), sorted(want[side], key=key)
+                if got != wanted:
+                    diff = [(a, b) for a, b in zip(got, wanted) if a != b][:5] or [("length", len(got), len(wanted))]
+                    report.violation(f"matlab:{side}:table-differs-from-model", dict(replay, generated=got[:40], model=wanted[:40], first_differences=diff,
+                                                                                   theorem_or_correspondence="Proto.matWriterRows / matReaderRows vs the generated .m file"),
+                                     "the state guards / transitions of the generated MATLAB base class are not the ones proved to enforce the step order")
 
         def ask(proc, line):
             proc.stdin.write((line + "\n").encode())
